@@ -81,6 +81,13 @@ def _natural_job(job):
     random.seed(int(rng.integers(0, 2**31)))
     snaps = None
     tr_ok = None
+    # the start cell is given as a tuple or as the caller's own ndarray (int64 / int8); the caller REUSES its array afterwards
+    # (writes another cell into it) before anything is read from the returned maze: the result must not alias its arguments
+    kw_rec, held = dict(kw), None
+    if "start_coord" in kw and k % 3:
+        sc = kw["start_coord"]
+        held = np.array(sc, dtype=np.int64 if k % 3 == 1 else np.int8)
+        kw = dict(kw, start_coord=held)
     if trace and gen in ("gen_dfs", "gen_prim"):
         res, out = mz.outcome(lambda: gens.traced_dfs(gen, r, c, kw))
         m = out[0] if res == "ok" else None
@@ -93,6 +100,9 @@ def _natural_job(job):
             snaps, tr_ok = out[1], out[1] is not None
     else:
         res, m = mz.outcome(lambda: gens.call_gen(gen, r, c, kw))
+    if held is not None:
+        held[:] = [(int(held[0]) + 1) % r, (int(held[1]) + 1) % c]
+    kw = kw_rec
     kwj = json.dumps({k_: (list(v) if isinstance(v, tuple) else v) for k_, v in kw.items()})
     if res != "ok":
         return dict(rec=dict(gen=gen, R=r, C=c, raised=res, kwj=kwj, seed=[seed, k]), snaps=None, tr_ok=None)
